@@ -137,7 +137,7 @@ pub fn gen_step(rng: &mut Rng, kind: Kind, cur: &Bits, profile: Profile) -> Step
             }
             9 => {
                 let (_, b) = small_operand(rng, room);
-                let lie = if rng.chance(1, 4) { Some(rng.below(260)) } else { None };
+                let lie = if rng.chance(1, 2) { pick_lie(rng) } else { None };
                 Step::new("extend").a(Args { bits: Some(b), lie, ..Default::default() })
             }
             10 => Step::new("split_off").a(Args { i: Some(rng.below(n + 1)), ..Default::default() }),
